@@ -861,4 +861,27 @@ def tablesOk (tbl : Tables) : Bool :=
   && !(allLevelToks tbl ++ rangeBlocked tbl ++ unaryBlocked).contains "R_PAREN"
   && !(allLevelToks tbl ++ rangeBlocked tbl ++ unaryBlocked).contains "COMMA"
 
+/-! ### a call-form printer that strips the redundant Paren around an operand (`a % b` → `MOD(a, b)`) -/
+
+/-- `Expression.unnest()`: strip every enclosing Paren -/
+def unnest : Expr → Expr
+  | .paren e => unnest e
+  | e => e
+
+/-- `x.this if isinstance(x, exp.Paren) else x`: strip one Paren -/
+def stripOne : Expr → Expr
+  | .paren e => e
+  | e => e
+
+def isBin : Expr → Bool
+  | .bin _ _ _ => true
+  | _ => false
+
+/-- what the parser rebuilds from the printed call argument: `build_mod` wraps a binary operand in one Paren, an
+    argument printed with its own parentheses parses to a Paren -/
+def rewrap (e : Expr) : Expr := if isBin e then .paren e else e
+
+theorem unnest_idem (e : Expr) : unnest (unnest e) = unnest e := by
+  fun_induction unnest e <;> simp_all [unnest]
+
 end SqlglotModel.ParseGen
